@@ -14,7 +14,7 @@ CLAIMED = {
             "verif/util.py (8 documented events = interval membership for all real values, NaN in no event, array = scalar branch, "
             "thresholding agrees with membership, within= partition of (first,last] for every increasing list by induction, "
             "complements, event probabilities); translation validation of the generated code on primitive floats against the "
-            "real functions over the complete order-relation grid; falsifier against the documented inequalities.",
+            "real functions over the complete order-relation grid; falsifier against the documented inequalities. QuantileCoverage for all 8 bin types with observations ON the quantile forecasts: each end of the interval is closed exactly when the bin type says so.",
             "7 C07", "Coq proof over translated source + translation validation"),
 }
 CLAIMED["C06"] = ("proof", "Properties/C06.v: each of the 25 GENERATED compute_from_abcd formulas equals its textbook definition "
@@ -30,23 +30,23 @@ DATA_NOTE = ("Hand-written executable model of verif/data.py (coq/Model/Data.v, 
     "and diffing every returned array; a third, independent coordinate-keyed oracle decides whether a disagreement is a concrete failing "
     "input; metamorphic falsifier on the implementation. ")
 CLAIMED["C01"] = ("proof", DATA_NOTE + "C01: a case contributes only if every input and the climatology have it, same cases for all inputs, "
-    "non-interference of one input's values on the others (propagation theorems), observation sharing. Datasets include infinite values (read as missing by the model: unusable in EVERY input). Falsifier harness/probtie.py: scores using several quantities (observation + two threshold probabilities, stored in different orders per input or derived from ensembles with all-missing cases) are taken over the cases where all of them are present in every input.", "7 C01", "Coq proof over hand model + correspondence check")
-CLAIMED["C02"] = ("proof", DATA_NOTE + "C02: value_by_coordinate (the cell used is the one stored at the first occurrence of the coordinates in the "
+    "non-interference of one input's values on the others (propagation theorems), observation sharing. Datasets include infinite values (read as missing by the model: unusable in EVERY input). Falsifier harness/probtie.py: scores using several quantities (observation + two threshold probabilities, stored in different orders per input or derived from ensembles with all-missing cases) are taken over the cases where all of them are present in every input; likewise the spread-skill ratio (obs, fcst and two quantile columns per input).", "7 C01", "Coq proof over hand model + correspondence check")
+CLAIMED["C02"] = ("proof", DATA_NOTE + "C02: Model/Lookup.v: a stored threshold column is found by its VALUE in each input's own list (theorems C02_threshold_column_found_by_value, C02_absent_threshold_is_not_found; the index the model finds is compared with the column the implementation reads). PIT randomisation at a discrete mass only touches cells whose own observation equals x0 (inputs in shuffled orders). The coordinates the dataset reports are compared with set arithmetic. Text files with interleaved rows and one conflicting-metadata row. Further value_by_coordinate (the cell used is the one stored at the first occurrence of the coordinates in the "
     "input's own lists, through the index recomputation after -d/-tod), first-index and order-free intersection lemmas; permutation of "
     "entries / input order checked metamorphically on the implementation. Added theorems: the verified dimensions depend on membership only -- permuting (or duplicating) the entries inside any input, or permuting the inputs, leaves them unchanged (strictly ascending lists with equal members are equal).", "7 C02", "Coq proof over hand model + correspondence check")
 CLAIMED["C03"] = ("proof", DATA_NOTE + "C03: membership iff for times / lead times / locations incl. all nine subsetting options with inclusive ranges, "
-    "strictly ascending dimensions, -obsrange masking, empty selection never numeric. The specification says a range option constrains only when GIVEN (C03_latrange_alone_selects_by_latitude_only, _lonrange_) and that -d keeps exactly the times on the requested UTC days for EVERY unix time, also before 1970 (C03_date_option_selects_whole_utc_days); both had been copied from the code and were rewritten from the property text (two defects fixed). Pools include longitudes in 0..360 and times before 1970; 13 option sets are also run through the real command line and compared with the rows of -type csv.", "7 C03", "Coq proof over hand model + correspondence check")
+    "strictly ascending dimensions, -obsrange masking, empty selection never numeric. The specification says a range option constrains only when GIVEN (C03_latrange_alone_selects_by_latitude_only, _lonrange_) and that -d keeps exactly the times on the requested UTC days for EVERY unix time, also before 1970 (C03_date_option_selects_whole_utc_days); both had been copied from the code and were rewritten from the property text (two defects fixed). Pools include longitudes in 0..360 and times before 1970; 13 option sets are also run through the real command line and compared with the rows of -type csv. A -d / -tod selection that leaves no time is an error exit in model and code (C03_built_dataset_is_never_empty).", "7 C03", "Coq proof over hand model + correspondence check")
 CLAIMED["C04"] = ("proof", DATA_NOTE + "C04: get_scores delivers numbers only or the single NaN, kept positions valid in every requested field, "
     "missing anywhere => missing everywhere, non-finite anomaly missing; missing-vs-deleted metamorphic relation, reader encodings and "
     "all-missing slices for a metric sample checked on the implementation, also when the same Data object is asked a second time (cached answer) with every kind of aggregator. The token rule of the text reader (Text._clean) is GENERATED from /repo (Gen_io.text_cell) with theorems over the extended reals: a token that is no number, NaN or the NUMBER -999 in any spelling is missing, every other number is kept, the placeholder is never delivered; tied to Text._clean on 47 tokens per run. Whole-array requests (no axis): a case missing in one requested field is missing in every returned array; a missing token in the date / unixtime column drops the row.", "7 C04", "Coq proof over hand model + correspondence check")
 CLAIMED["C14"] = ("proof", DATA_NOTE + "C14: obs/fcst become value (-|/) climatology cell by cell, other fields untouched, missing climatology or "
     "non-finite quotient drops the case for every input, climatology looked up by coordinates and never counted as an input; "
-    "-c X versus X as extra input compared on the implementation; six -c / -C combinations (also through --config; the LAST climatology option decides file and operation) through the real command line against hand-computed anomalies; name and legend lists for climatologies sharing a file name with a verified input.", "7 C14", "Coq proof over hand model + correspondence check")
+    "-c X versus X as extra input compared on the implementation; six -c / -C combinations (also through --config; the LAST climatology option decides file and operation) through the real command line against hand-computed anomalies; name and legend lists for climatologies sharing a file name with a verified input; -obsrange together with a climatology is kept in 40% of the datasets (the range is about the raw observation); two datasets built from the same list of inputs see the same verified files.", "7 C14", "Coq proof over hand model + correspondence check")
 CLAIMED["C11"] = ("proof", DATA_NOTE + "C11: every case in exactly one slice for any bucket function (all 17 axes), slice counts and any additive "
     "statistic add up to the pooled one, calendar facts for EVERY unix time (day, week = Monday, time of day, lead-time day), civil "
     "calendar / month / year buckets and date<->unixtime<->daynum inverses decided for every day 1900-2100 (vm_compute over a finite "
     "domain lifted by forallb_forall, bound in the statement); Model/Cal.v tied to datetime/calendar/matplotlib by comparison "
-    "(every day 1900-2100 in the thorough tier).", "7 C11", "Coq proof over hand model + correspondence check")
+    "(every day 1900-2100 in the thorough tier). The dataset tie runs with -d / -tod / -t selections (the slices are those of the selected times) and with equal clock times (06:20) on dates decades apart.", "7 C11", "Coq proof over hand model + correspondence check")
 CLAIMED["C18"] = ("proof", "Stateful executable Coq model of Data.get_scores (Model/DataState.v: both caches, a heap of array objects with identity, "
     "every in-place write of the code). THEOREMS, for histories of ANY length, any dataset / options / value type, by invariant induction "
     "over the request list (Proofs/C18_frame.v, C18_refine.v, ~1200 lines, axiom-free): (1) REFINEMENT -- after any history the repaired "
@@ -65,7 +65,7 @@ CLAIMED["C05"] = ("proof", TRANS_NOTE + "C05: pair filter (no valid pair => NaN,
     "the documented quantity for ANY aggregator (mae, bias, diff, ratio, rmse), closed forms / undefined cases / never-better-than-perfect / "
     "perfect-forecast theorems for mae, bias, rmse, stderror, nsec, diff on vectors of every length; 21 metric classes x 16 aggregators "
     "validated; alphaindex perfect score REFUTED (known finding), leps not modelled (falsifier only); rank correlations are named "
-    "specifications compared with scipy. Added: Cauchy-Schwarz for lists of reals, hence the generated Corr is within [-1, 1] whenever it is a number and equals 1 for identical vectors. The generator includes constant-offset forecasts (error without spread), all-negative pairs and constant observations that are not exactly representable (known finding zero-variance-rounding: the exact `== 0` guards miss them in floating point; the XR theorems hold).", "7 C05", "Coq proof over translated source + translation validation")
+    "specifications compared with scipy. Added: Cauchy-Schwarz for lists of reals, hence the generated Corr is within [-1, 1] whenever it is a number and equals 1 for identical vectors. The generator includes constant-offset forecasts (error without spread), all-negative pairs and constant observations that are not exactly representable (known finding zero-variance-rounding: the exact `== 0` guards miss them in floating point; the XR theorems hold). The driver assigns -agg to every metric: one that does not support it must ignore it; an obs/fcst statistic with any aggregator leaves the pairs the dataset hands out unchanged.", "7 C05", "Coq proof over translated source + translation validation")
 CLAIMED["C08"] = ("proof", TRANS_NOTE + "C08: event probability from the CDF for all 8 bin types, Brier score / uncertainty / skill score closed forms, "
     "complement symmetry, every probability in [0,1] lies in exactly one of the 10 bins (exact double edges, top edge 1.001), ensemble-derived "
     "probability = fraction of present members (in [0,1], missing members ignored, all missing => NaN), pinball terms non-negative. The "
